@@ -353,6 +353,20 @@ def write_evidence(ctx: Ctx, violations, obligations, discharged):
 
 def run(mod, tier, seed, replay=None):
     ctx = Ctx(mod, tier, seed)
+    # Watchdog: a check must never hang (e.g. code under test that no longer terminates).  Property modules
+    # budget their own executions and report non-termination as a failing input; this is the last resort:
+    # after the limit the run ends as a broken check (exit 2), never as a verdict.
+    import signal
+    limit = int(os.environ.get("VERIF_TIMEOUT", "1500" if tier == "quick" else "5400"))
+
+    def _on_alarm(signum, frame):
+        raise BrokenCheck(f"watchdog: check exceeded {limit} s (VERIF_TIMEOUT)")
+
+    try:
+        signal.signal(signal.SIGALRM, _on_alarm)
+        signal.alarm(limit)
+    except (ValueError, AttributeError):
+        pass
     violations = 0
     obligations = discharged = 0
     rc = 0
